@@ -218,6 +218,9 @@ class UnitRegistry:
 
         self._forget_derived(symbol)
         self.lut[symbol] = (float(base_value), new_dimensions) + self.lut[symbol][2:]
+        # converting a base_value quantity of this registry hashes its units,
+        # which re-computes the id from the contents before the change
+        self._unit_system_id = None
 
     def _forget_derived(self, symbol):
         """Drop everything memoised from the current entry for *symbol*:
